@@ -50,15 +50,23 @@ template <> struct KeyOf<std::string> {
 };
 
 // ---- callback storage: std::function or this comparable functor
+// a listener may be a "spawner": each time it runs (up to kMaxSpawn times per program) it appends a further listener to its
+// own event. That listener must not run in the dispatch that added it, whatever the threading policy.
+const int kMaxSpawn = 3;
+const int kSpawnBase = 1000;
+struct SpawnHook { void (*fn)(void * ctx, int keyIndex); void * ctx; int count; };
+inline SpawnHook & spawnHook() { static SpawnHook h = { 0, 0, 0 }; return h; }
 struct Cb
 {
 	int id;
 	bool withKey;
-	Cb() : id(-1), withKey(false) {}
-	Cb(int id_, bool wk) : id(id_), withKey(wk) {}
-	void operator() (int v) const { emit("L" + num(id) + "(" + num(v) + ")"); }
-	void operator() (int k, int v) const { emit("L" + num(id) + "(" + KeyOf<int>::show(k) + "," + num(v) + ")"); }
-	void operator() (const std::string & k, int v) const { emit("L" + num(id) + "(" + KeyOf<std::string>::show(k) + "," + num(v) + ")"); }
+	int spawnKey; // >= 0: spawner for that key index
+	Cb() : id(-1), withKey(false), spawnKey(-1) {}
+	Cb(int id_, bool wk, int spawnKey_ = -1) : id(id_), withKey(wk), spawnKey(spawnKey_) {}
+	void spawn() const { SpawnHook & h = spawnHook(); if(spawnKey >= 0 && h.fn && h.count < kMaxSpawn) { ++h.count; h.fn(h.ctx, spawnKey); } }
+	void operator() (int v) const { emit("L" + num(id) + "(" + num(v) + ")"); spawn(); }
+	void operator() (int k, int v) const { emit("L" + num(id) + "(" + KeyOf<int>::show(k) + "," + num(v) + ")"); spawn(); }
+	void operator() (const std::string & k, int v) const { emit("L" + num(id) + "(" + KeyOf<std::string>::show(k) + "," + num(v) + ")"); spawn(); }
 	bool operator == (const Cb & o) const { return id == o.id; }
 };
 
@@ -160,6 +168,12 @@ struct Subject : ISubject
 		int cur = 0;
 		memset(&slots[0].buf, pat[fill & 3], sizeof(Queue));
 		slots[0].q = new (&slots[0].buf) Queue();
+		struct SpawnCtx { Slot * slots; int * cur; } spawnCtx = { slots, &cur };
+		struct Spawn { static void fn(void * c, int keyIndex) {
+			SpawnCtx * x = static_cast<SpawnCtx *>(c);
+			x->slots[*x->cur].q->appendListener(KeyOf<K>::make(keyIndex), Cb(kSpawnBase + spawnHook().count, Include));
+		} };
+		spawnHook().fn = &Spawn::fn; spawnHook().ctx = &spawnCtx; spawnHook().count = 0;
 		for(size_t oi = 0; oi < p.ops.size(); ++oi) {
 			const Op & op = p.ops[oi];
 			Queue & q = *slots[cur].q;
@@ -168,7 +182,7 @@ struct Subject : ISubject
 			switch(op.kind) {
 			case G_ADD: {
 				int id = (int)handles.size();
-				Cb cb(id, Include);
+				Cb cb(id, Include, (((op.b % 6) + 6) % 6) >= 3 ? ki : -1);
 				Handle before = handles.empty() ? Handle() : handles[(size_t)(((op.c % (int)handles.size()) + (int)handles.size()) % (int)handles.size())];
 				int how = ((op.b % 3) + 3) % 3;
 				if(how == 2 && ! handles.empty()) {
@@ -239,6 +253,7 @@ struct Subject : ISubject
 		}
 		emit(std::string("end:P=") + (slots[cur].q->process() ? "1" : "0"));
 		emit(std::string("E=") + (slots[cur].q->emptyQueue() ? "1" : "0"));
+		spawnHook().fn = 0; spawnHook().ctx = 0;
 		slots[cur].q->~Queue();
 		g_trace = 0;
 	}
@@ -253,15 +268,23 @@ std::string model(const Program & p, bool include, bool canWait)
 	MQueue m;
 	std::vector<int> handleKey;      // listener id -> key index
 	std::vector<int> attached;       // 1 while in its list
+	std::vector<int> spawner;        // listener id -> 1 if it appends a listener each time it runs
+	int spawned = 0;
 	for(size_t oi = 0; oi < p.ops.size(); ++oi) {
 		const Op & op = p.ops[oi];
 		const int ki = ((op.a % kKeys) + kKeys) % kKeys;
 		const K key = KeyOf<K>::make(ki);
-		struct Run { static void listeners(const MQueue & mq, int k, int value, bool inc, const K & kv) {
-			for(size_t i = 0; i < mq.lists[(size_t)k].size(); ++i) {
-				int id = mq.lists[(size_t)k][i];
-				emit(inc ? "L" + num(id) + "(" + KeyOf<K>::show(kv) + "," + num(value) + ")" : "L" + num(id) + "(" + num(value) + ")");
-			} } };
+		struct Run {
+			MQueue & mq; const std::vector<int> & spawner; int & spawned;
+			void listeners(int k, int value, bool inc, const K & kv) {
+				const size_t n = mq.lists[(size_t)k].size(); // listeners appended during this dispatch do not run in it
+				for(size_t i = 0; i < n; ++i) {
+					int id = mq.lists[(size_t)k][i];
+					emit(inc ? "L" + num(id) + "(" + KeyOf<K>::show(kv) + "," + num(value) + ")" : "L" + num(id) + "(" + num(value) + ")");
+					if(id < kSpawnBase && (size_t)id < spawner.size() && spawner[(size_t)id] && spawned < kMaxSpawn) { ++spawned; mq.lists[(size_t)k].push_back(kSpawnBase + spawned); }
+				}
+			}
+		} run = { m, spawner, spawned };
 		switch(op.kind) {
 		case G_ADD: {
 			int id = (int)handleKey.size();
@@ -279,6 +302,7 @@ std::string model(const Program & p, bool include, bool canWait)
 			if(how == 0) l.push_back(id);
 			else if(how == 1) l.insert(l.begin(), id);
 			handleKey.push_back(ki);
+			spawner.push_back((((op.b % 6) + 6) % 6) >= 3 ? 1 : 0);
 			break;
 		}
 		case G_REMOVE: {
@@ -291,18 +315,18 @@ std::string model(const Program & p, bool include, bool canWait)
 			emit(std::string("rm=") + (r ? "1" : "0"));
 			break;
 		}
-		case G_DISPATCH: emit("D"); Run::listeners(m, ki, op.b, include, key); break;
+		case G_DISPATCH: emit("D"); run.listeners(ki, op.b, include, key); break;
 		case G_ENQ: { MEvent e; e.key = ki; e.value = op.b; m.pending.push_back(e); break; }
 		case G_PROCESS: {
 			std::vector<MEvent> batch; batch.swap(m.pending);
-			for(size_t i = 0; i < batch.size(); ++i) Run::listeners(m, batch[i].key, batch[i].value, include, KeyOf<K>::make(batch[i].key));
+			for(size_t i = 0; i < batch.size(); ++i) run.listeners(batch[i].key, batch[i].value, include, KeyOf<K>::make(batch[i].key));
 			emit(std::string("P=") + (batch.empty() ? "0" : "1"));
 			break;
 		}
 		case G_PROCESSONE: {
 			if(m.pending.empty()) { emit("P1=0"); break; }
 			MEvent e = m.pending.front(); m.pending.erase(m.pending.begin());
-			Run::listeners(m, e.key, e.value, include, KeyOf<K>::make(e.key));
+			run.listeners(e.key, e.value, include, KeyOf<K>::make(e.key));
 			emit("P1=1");
 			break;
 		}
@@ -310,7 +334,7 @@ std::string model(const Program & p, bool include, bool canWait)
 			std::vector<MEvent> batch; batch.swap(m.pending);
 			std::vector<MEvent> rest; int n = 0;
 			for(size_t i = 0; i < batch.size(); ++i) {
-				if((batch[i].value & 1) == (op.a & 1)) { Run::listeners(m, batch[i].key, batch[i].value, include, KeyOf<K>::make(batch[i].key)); ++n; }
+				if((batch[i].value & 1) == (op.a & 1)) { run.listeners(batch[i].key, batch[i].value, include, KeyOf<K>::make(batch[i].key)); ++n; }
 				else rest.push_back(batch[i]);
 			}
 			m.pending = rest;
@@ -343,10 +367,12 @@ std::string model(const Program & p, bool include, bool canWait)
 	{
 		std::vector<MEvent> batch; batch.swap(m.pending);
 		for(size_t i = 0; i < batch.size(); ++i) {
-			for(size_t j = 0; j < m.lists[(size_t)batch[i].key].size(); ++j) {
+			const size_t n = m.lists[(size_t)batch[i].key].size();
+			for(size_t j = 0; j < n; ++j) {
 				int id = m.lists[(size_t)batch[i].key][j];
 				K kv = KeyOf<K>::make(batch[i].key);
 				emit(include ? "L" + num(id) + "(" + KeyOf<K>::show(kv) + "," + num(batch[i].value) + ")" : "L" + num(id) + "(" + num(batch[i].value) + ")");
+				if(id < kSpawnBase && (size_t)id < spawner.size() && spawner[(size_t)id] && spawned < kMaxSpawn) { ++spawned; m.lists[(size_t)batch[i].key].push_back(kSpawnBase + spawned); }
 			}
 		}
 		emit(std::string("end:P=") + (batch.empty() ? "0" : "1"));
@@ -447,7 +473,7 @@ Grammar makeGrammar()
 	top.maxOps = 40;
 	const ArgSpec key(0, 2), val(-50, 50), h(0, 20);
 	top.kinds = {
-		{ cfg::G_ADD, "addListener", 14, key, ArgSpec(0, 2), h, -1, 0 },
+		{ cfg::G_ADD, "addListener", 14, key, ArgSpec(0, 5), h, -1, 0 }, // b % 3: append / prepend / insert; b >= 3: the listener is a spawner
 		{ cfg::G_REMOVE, "removeListener", 4, h, ArgSpec(0, 0), ArgSpec(0, 0), -1, 0 },
 		{ cfg::G_DISPATCH, "dispatch", 10, key, val, ArgSpec(0, 1), -1, 0 },
 		{ cfg::G_ENQ, "enqueue", 16, key, val, ArgSpec(0, 1), -1, 0 },
